@@ -47,10 +47,33 @@ Proof. exact CrossProduct_sign. Qed.
 (* --- point in polygon --- *)
 Theorem C14_pip_total : forall q poly, pip_model q poly = IsOn \/ pip_model q poly = IsInside \/ pip_model q poly = IsOutside.
 Proof. exact pip_total. Qed.
-(* PARTIAL: the index-walking loop equals the exact even-odd specification on the
-   exhaustively enumerated scope (3- and 4-vertex polygons on the 3x3 lattice, all
-   query points of the surrounding 5x5 lattice); for larger inputs the equality
-   pip_model = pip_spec is a correspondence obligation checked on every run. *)
+(* the index-walking loop of PointInPolygon (faithful model, Model/Measures.v) returns exactly what exact
+   integer arithmetic dictates (even-odd sense, Model/Measures.v:pip_spec) for EVERY polygon with at least 3
+   vertices that is not contained in the horizontal line through the query point, coordinates within 2^29 *)
+From Clip Require Import Model.PipProofs.
+Theorem C14_pip_exact : forall q poly,
+  coord_ok two29 q -> path_ok two29 poly ->
+  (3 <= length poly)%nat ->
+  (exists v, In v poly /\ py v <> py q) ->
+  pip_model q poly = pip_spec q poly.
+Proof. exact pip_model_eq_spec. Qed.
+(* ... and exactly there: outside that scope the model and the specification differ precisely when the
+   specification says IsOn (the code answers IsOutside for fewer than 3 vertices and for polygons all of
+   whose vertices are level with the query point) *)
+Theorem C14_pip_exact_scope : forall q poly,
+  coord_ok two29 q -> path_ok two29 poly ->
+  (pip_model q poly = pip_spec q poly
+   <-> ((3 <= length poly)%nat /\ (exists v, In v poly /\ py v <> py q)) \/ pip_spec q poly <> IsOn).
+Proof. exact pip_model_eq_spec_iff. Qed.
+Example C14_pip_refuted_on_a_horizontal_line : exists q poly,
+  coord_ok two29 q /\ path_ok two29 poly /\ (3 <= length poly)%nat
+  /\ pip_model q poly = IsOutside /\ pip_spec q poly = IsOn.
+Proof. exact pip_model_eq_spec_refuted_level. Qed.
+Example C14_pip_refuted_two_points : exists q poly,
+  coord_ok two29 q /\ path_ok two29 poly /\ (exists v, In v poly /\ py v <> py q)
+  /\ pip_model q poly = IsOutside /\ pip_spec q poly = IsOn.
+Proof. exact pip_model_eq_spec_refuted_short. Qed.
+(* the exhaustively enumerated scope of the first version of this file, kept as a regression *)
 Theorem C14_pip_exact_partial : forall q poly, on_grid5 q -> (length poly = 3 \/ length poly = 4)%nat ->
   Forall on_grid3 poly -> (exists a b, In a poly /\ In b poly /\ py a <> py b) ->
   pip_model q poly = pip_spec q poly.
@@ -60,3 +83,5 @@ Print Assumptions C14_area_exact.
 Print Assumptions C14_bounds_exact.
 Print Assumptions C14_collinear_exact_partial.
 Print Assumptions C14_pip_exact_partial.
+Print Assumptions C14_pip_exact.
+Print Assumptions C14_pip_exact_scope.
